@@ -42,6 +42,12 @@ impl Conflict {
         }
     }
 
+    /// Verification hook: the ids of the clauses blamed for the conflict.
+    #[cfg(feature = "verif-hooks")]
+    pub fn verif_clauses(&self) -> Vec<usize> {
+        self.clauses.iter().map(|c| c.to_usize()).collect()
+    }
+
     /// Generates a graph representation of the conflict (see [`ConflictGraph`]
     /// for details)
     pub fn graph<D: DependencyProvider, RT: AsyncRuntime>(
